@@ -87,66 +87,13 @@ class Validator(object):
         return node
 
     def leaf_valid(self, schema, v):
-        """concrete validation of a JSON scalar / structured string leaf"""
-        for k, x in schema.items():
-            if k in IGNORED:
-                continue
-            if k == "$ref":
-                if not self.leaf_valid(self.resolve(x), v):
-                    return False
-            elif k == "type":
-                ts = x if isinstance(x, list) else [x]
-                ok = False
-                for t in ts:
-                    if t == "string" and isinstance(v, str):
-                        ok = True
-                    elif t == "number" and isinstance(v, (int, float)) and not isinstance(v, bool) and v == v and v not in (float("inf"), float("-inf")):
-                        ok = True
-                    elif t == "integer" and isinstance(v, int) and not isinstance(v, bool):
-                        ok = True
-                    elif t == "boolean" and isinstance(v, bool):
-                        ok = True
-                    elif t == "null" and v is None:
-                        ok = True
-                    elif t == "object" and isinstance(v, dict):
-                        ok = True
-                if not ok:
-                    return False
-            elif k == "enum":
-                if not any(type(v) is type(e) and v == e for e in x):
-                    return False
-            elif k == "const":
-                if not (type(v) is type(x) and v == x):
-                    return False
-            elif k in ("minimum", "maximum", "multipleOf"):
-                if isinstance(v, (int, float)) and not isinstance(v, bool):
-                    if v != v:
-                        return False
-                    dv = Decimal(repr(v))
-                    dx = Decimal(repr(x))
-                    if k == "minimum" and dv < dx:
-                        return False
-                    if k == "maximum" and dv > dx:
-                        return False
-                    if k == "multipleOf" and (dv % dx) != 0:
-                        return False
-            elif k == "pattern":
-                if isinstance(v, str):
-                    n = R.parse(x)
-                    if not R.accepts(n, R.step(n, R.initial(n), v)):
-                        return False
-            elif k in ("allOf", "anyOf"):
-                rs = [self.leaf_valid(s, v) for s in x]
-                if k == "allOf" and not all(rs):
-                    return False
-                if k == "anyOf" and not any(rs):
-                    return False
-            elif k in ("properties", "required"):
-                if isinstance(v, dict):
-                    raise Unsupported("nested object")
-            else:
-                raise Unsupported("JSON Schema keyword %r" % k)
-        return True
+        """concrete validation of a JSON scalar leaf"""
+        from spec import schema_concrete
+
+        try:
+            return schema_concrete.valid(self.root, schema, v)
+        except ValueError as e:
+            raise Unsupported(str(e))
 
     def value_valid(self, schema, v):
         """guard: symbolic value v validates against schema"""
